@@ -36,11 +36,11 @@ type Subscription { ev: Int }
 """
 TWO_IFACES_SDL = """
 enum Color { RED GREEN }
-interface Node { id: ID link(x: Int): Node }
+interface Node { id: ID link(x: Int): Node tags(ids: [ID]): [String] }
 interface Linked { link(x: Int, y: Color): Linked id: ID! }
-type A implements Node & Linked { id: ID! link(x: Int, y: Color): A a: Int }
-type B implements Linked & Node { link(x: Int, y: Color): B id: ID! b: Float }
-type C implements Node { id: ID link(x: Int): Node }
+type A implements Node & Linked { id: ID! link(x: Int, y: Color): A a: Int tags(ids: [ID]): [String] }
+type B implements Linked & Node { link(x: Int, y: Color): B id: ID! b: Float tags(ids: [ID]): [String] }
+type C implements Node { id: ID link(x: Int): Node tags(ids: [ID]): [String] }
 type Query { node: Node linked: Linked a: A b: B c: C }
 """
 SMALL_SDL = "interface N { id: ID! } type A implements N { id: ID! a(x: Int = 1): [Int!] } union U = A enum E { X Y } input I { a: Int } type Query { a: A u: U e(i: I): E }"
@@ -53,6 +53,15 @@ def seed_models():
     from vf.props import c11
     return [("base", S.parse_sdl(BASE_SDL)), ("renamed", S.parse_sdl(c11.RENAMED_SDL)), ("deprecations", S.parse_sdl(c11.DEPR_SDL)),
             ("two-interfaces", S.parse_sdl(TWO_IFACES_SDL))]
+
+
+def swap_wrapper(t):
+    """the same named type at the same depth with the outermost wrapper exchanged: [T] <-> T!  (None for a bare named type)"""
+    if t[0] == "list":
+        return ("nn", t[1])
+    if t[0] == "nn":
+        return ("list", t[1])
+    return None
 
 
 def with_type(schema, t):
@@ -115,6 +124,9 @@ def sx(schema):
                          ("interface-field-type", "|list-for-named", replace(f, type=("list", f.type)))]
                 if f.type[0] == "nn":
                     cands.append(("interface-field-type", "|nullable-for-non-null", replace(f, type=f.type[1])))
+                swapped = swap_wrapper(f.type)
+                if swapped is not None:
+                    cands.append(("interface-field-type", "|list-wrapper-for-non-null-wrapper", replace(f, type=swapped)))
                 for other in objs + ifaces:
                     if other.name not in (doc.named_of(f.type), schema.query) and doc.named_of(f.type) not in ("ID", "Int", "String", "Float", "Boolean"):
                         cands.append(("interface-field-type", "|other-composite", replace(f, type=("named", other.name))))
@@ -122,6 +134,10 @@ def sx(schema):
                     pos = [k for k, a in enumerate(f.args) if a.name == ia.name][0]
                     cands.append(("interface-argument-missing", "|arg-%d" % ai, replace(f, args=f.args[:pos] + f.args[pos + 1:])))
                     cands.append(("interface-argument-type", "|arg-%d" % ai, replace(f, args=f.args[:pos] + (replace(f.args[pos], type=("named", "String")),) + f.args[pos + 1:])))
+                    sw = swap_wrapper(f.args[pos].type)
+                    if sw is not None:
+                        cands.append(("interface-argument-type", "|arg-%d-wrapper-swapped" % ai,
+                                      replace(f, args=f.args[:pos] + (replace(f.args[pos], type=sw),) + f.args[pos + 1:])))
                     cands.append(("interface-argument-type", "|arg-%d-non-null-for-nullable" % ai,
                                   replace(f, args=f.args[:pos] + (replace(f.args[pos], type=("nn", f.args[pos].type)),) + f.args[pos + 1:])))
                 cands.append(("interface-extra-required-argument", "", replace(f, args=f.args + (ArgDef("extra", ("nn", ("named", "Int"))),))))
